@@ -148,6 +148,10 @@ class Contract:
     def exc_proof(self, p, a, exc, case):
         p.qed()
 
+    def side_proof(self, p, a, kind, name, case):
+        """Proof script for a side obligation of the path (callee precondition, loop entry / maintenance)."""
+        p.qed()
+
     def configs(self):
         return [{}]
 
@@ -482,8 +486,11 @@ def verify_contract(con, registry, config=None):
                               'pc': res.pc, 'value': res.value, 'args': a, 'case': case, 'contract': con})
             rep.notes.update(res.notes)
             for ob in res.obls:
-                ob.name = '%s.%s' % (pname, ob.name)
-                rep.obligations.append(ob)
+                sp = Proof('%s.%s' % (pname, ob.name), ob.assumptions, ob.goal, rep.obligations,
+                           {'kind': ob.kind, 'path': pname})
+                con.side_proof(sp, a, ob.kind, ob.name, case)
+                if not sp.closed:
+                    sp.qed()
             if res.kind == 'return':
                 ens = con.ensures(a, res.value)
                 for nm, g in ens.items():
